@@ -528,7 +528,8 @@ func checkNamed(c NamedCase, o *vf.Obs) error {
 	}
 
 	cacheOn := c.DNSCache != "off"
-	o.Class("gun_" + c.Gun)
+	gunLabel := strings.ReplaceAll(c.Gun, "/", "_")
+	o.Class("gun_" + gunLabel)
 	o.ClassIf(named, "target_by_name")
 	o.ClassIf(!named, "target_by_ip")
 	o.ClassIf(named && c.DNSCache == "", "by_name_dns_cache_default")
@@ -539,7 +540,7 @@ func checkNamed(c NamedCase, o *vf.Obs) error {
 	// the caching dialer stays installed: named target, cache on, not reachable when the gun was built
 	caching := named && cacheOn && !c.UpAtStart
 	o.ClassIf(caching, "by_name_cache_on_down_at_construction")
-	o.ClassIf(caching, "by_name_cache_on_down_at_construction_"+c.Gun)
+	o.ClassIf(caching, "by_name_cache_on_down_at_construction_"+gunLabel)
 	o.ClassIf(caching && c.FlipAfter < 0, "caching_dialer_target_stays_down")
 	o.ClassIf(caching && c.FlipAfter >= 0, "caching_dialer_target_comes_up")
 	o.ClassIf(caching && refused >= 2, "caching_dialer_refused_twice_or_more")
